@@ -269,7 +269,32 @@ def _shard_a(d, e, *rest):
 
 UNTRACE = [('kernpy.core.tokens', 'TokenCategoryHierarchyMapper.valid')]
 
+# ------------------------------------------------------------------ C13.d first call of an interpreter, then the observed exports
+FRESH_REQ = [{'combined': {'spine_ids': [0], 'exclude': ['DECORATION'], 'encoding': 'eKern', 'cols': [0]}, 'types + include': {'spine_types': ['**kern'], 'include': ['NOTE_REST', 'BARLINES', 'HEADER', 'SPINE_OPERATION'], 'encoding': 'bEkern', 'cols': [0]}}, {'combined': {'spine_ids': [0, 2], 'exclude': ['DURATION'], 'encoding': 'eKern', 'cols': [0, 2]}}]
+
+
+def ob_d(pre: int, d: int) -> bool:
+    from sv.ref import fresh
+    assume(0 <= pre < len(fresh.PRELUDES) and 0 <= d < 2)
+    return _d_body(choose(pre, len(fresh.PRELUDES)), choose(d, 2))
+
+
+@native
+def _d_body(pre, d):
+    from sv.ref import fresh, docs as _docs
+    P = _docs.pool()
+    D, other = (P[0], P[1]) if d == 0 else (P[1], P[0])
+    bad = fresh.mismatches(pre, D, other.text(), FRESH_REQ[d])
+    check(not bad, '; '.join(bad)[:1500])
+    return True
+
+
 OBLIGATIONS = [
+    Ob(id='C13.d', fn=ob_d, title='histories from the first call of a fresh interpreter: combined options still equal the composition of the single-option transformations',
+       shard_of=lambda pre, d: pre, shards={'quick': 5, 'thorough': 5}, budget_s={'quick': 150, 'thorough': 600}, native_body=True,
+       witnesses=[{'pre': 0, 'd': 0}], min_confirmed=15, enumerated='first call (10 kinds, incl. none), document (2)',
+       realized_at=['fresh python interpreter per history (subprocess)'],
+       bounds={'quick': '10 first calls x 2 pool documents (kern + text with chord / decorations / accidentals; kern + dynam + harm)', 'thorough': 'same'}),
     Ob(id='C13.a', fn=ob_a, title='spine ids x spine types x categories x encoding at once == composition of the single-option transformations',
        shard_of=_shard_a, shards={'quick': 12, 'thorough': 12}, budget_s={'quick': 170, 'thorough': 2400}, untrace=UNTRACE,
        witnesses=[{'d': 0, 'e': 1, 'c0': True, 'c1': True, 'c2': False, 'c3': True, 'c4': True, 'c5': True, 'i0': True, 'i1': False, 'i2': True, 'ids_none': False,
